@@ -101,3 +101,34 @@ package pool
 //@   ensures fresh(r.valueBuffer) || (r.valueBuffer.obj == old(r.valueBuffer.obj) && r.valueBuffer.off >= old(r.valueBuffer.off) && r.valueBuffer.off + cap(r.valueBuffer) == old(r.valueBuffer.off + cap(r.valueBuffer)))
 //@   ensures len(in) > 0 ==> r.isModified
 //@   ensures len(in) == 0 ==> r.isModified == old(r.isModified)
+
+// ---- header field accessors (used by C05/C06 contracts of the datagram connection) ----------------
+//
+//@ func (*Message) SetMessageID(mid int32)
+//@   requires r != nil
+//@   modifies r.msg.MessageID, r.isModified
+//@   ensures [set] r.msg.MessageID == mid && r.isModified
+//
+//@ func (*Message) MessageID() (m int32)
+//@   requires r != nil
+//@   ensures [get] m == r.msg.MessageID
+//
+//@ func (*Message) SetType(typ message.Type)
+//@   requires r != nil
+//@   modifies r.msg.Type, r.isModified
+//@   ensures [set] r.msg.Type == typ && r.isModified
+//
+//@ func (*Message) Type() (t message.Type)
+//@   requires r != nil
+//@   ensures [get] t == r.msg.Type
+//
+//@ func (*Message) SetModified(b bool)
+//@   requires r != nil
+//@   modifies r.isModified
+//@   ensures [set] r.isModified == b
+//
+//@ func (*Message) SetToken(token message.Token)
+//@   requires r != nil
+//@   modifies r.msg.Token, r.msg.Token[0 : cap(r.msg.Token)]
+//@   ensures [nil] token == nil ==> r.msg.Token == nil
+//@   ensures [len] len(r.msg.Token) == len(token)
